@@ -19,6 +19,7 @@ from core.engine import Property, F
 
 ID_COLS = {"environment_id": "eid", "learner_id": "lid", "evaluator_id": "vid"}
 P15_SIG = "fin:group-with-duplicate-level-masking-missing-level-kept"
+F2_SIG = "grouping-by-sorted-adjacency-misgroups-partially-ordered-values"
 
 
 # ----------------------------------------------------------------------------- values
@@ -29,6 +30,8 @@ def dv(j):
             return tuple(dv(x) for x in j["t"])
         if "f" in j:
             return float(j["f"])
+        if "fs" in j:
+            return frozenset(dv(x) for x in j["fs"])
     return j
 
 
@@ -36,6 +39,8 @@ def ev(v):
     """encode a parameter value as JSON"""
     if isinstance(v, tuple):
         return {"t": [ev(x) for x in v]}
+    if isinstance(v, frozenset):
+        return {"fs": sorted((ev(x) for x in v), key=repr)}
     if isinstance(v, float):
         return {"f": repr(v)}
     if v is None or isinstance(v, (bool, int, str)):
@@ -66,8 +71,20 @@ def build_result(case):
     ints = [hdr]
     for e, l, v, ys in case["evals"]:
         for i, y in enumerate(ys, 1):
-            ints.append([e, l, v, i, y] + ([100 * e + 10 * l + v + 1000 * i] if case.get("extra") else []))
+            ints.append([e, l, v, i, reward(case, y)] + ([100 * e + 10 * l + v + 1000 * i] if case.get("extra") else []))
     return Result(envs, lrns, vals, ints)
+
+
+def reward(case, y):
+    """rewards are generated as small ints; `rk` turns them into 0/1 ints, bools or dyadic floats"""
+    rk = case.get("rk")
+    if rk == "bin":
+        return y % 2
+    if rk == "bool":
+        return bool(y % 2)
+    if rk == "dyadic":
+        return y / 4
+    return y
 
 
 def snap(res):
@@ -85,6 +102,8 @@ def snap_json(s):
 def apply_step(res, st):
     """returns (new_result_or_None, output)"""
     op = st["op"]
+    if st.get("as_tuple"):
+        st = dict(st, **{k: tuple(st[k]) for k in ("l", "p", "x") if isinstance(st.get(k), list)})
     if op == "where_fin":
         l, p = st.get("l"), st.get("p")
         out = res.where_fin(st.get("n"), l, p) if not st.get("use_filter_fin") else res.filter_fin(st.get("n"), l, p)
@@ -95,7 +114,7 @@ def apply_step(res, st):
     if op == "where_best":
         return res.where_best(l=st["l"], p=st["p"], n=st.get("n")), None
     if op == "raw_learners":
-        t = res.raw_learners(x=st["x"], y="reward", l=st["l"], p=st.get("p"), span=st.get("span"))
+        t = res.raw_learners(x=st["x"], y=st.get("y", "reward"), l=st["l"], p=st.get("p"), span=st.get("span"))
         return None, t
     raise RuntimeError("bad op " + op)
 
@@ -150,7 +169,7 @@ def tofl(p):
 class Direct:
     """direct computations on a snapshot; independent of the Lean model"""
 
-    def __init__(self, pre):
+    def __init__(self, pre, y="reward"):
         self.pre = pre
         self.ecols, self.erows = pre["env"]
         self.lcols, self.lrows = pre["lrn"]
@@ -166,7 +185,7 @@ class Direct:
         for t in self.evals:
             self.evals[t].sort(key=lambda r: r[ii])
         self.ii = ii
-        self.iy = self.icols.index("reward")
+        self.iy = self.icols.index(y)
 
     def cell(self, col, t):
         if col == "environment_id":
@@ -229,8 +248,74 @@ class Direct:
 
     def window_mean(self, ys, span, i):
         lo = 0 if (span is None) else max(0, i + 1 - span)
-        w = ys[lo:i + 1]
+        w = [Fraction(y) for y in ys[lo:i + 1]]
         return Fraction(sum(w), len(w))
+
+    # -- only used to *classify* a mismatch as finding C18-F2: what grouping by sorted()+adjacency (the code's
+    #    path whenever sorted() does not raise) gives when the keys are only partially ordered (frozensets)
+    def rawkey(self, cols, t):
+        vals = [self.cell(c, t) for c in aslist(cols)]
+        return tuple(vals) if isinstance(cols, (list, tuple)) else vals[0]
+
+    def col_has_partial_order(self, cols):
+        for c in aslist(cols or []):
+            for cs, rows in ((self.ecols, self.erows), (self.lcols, self.lrows), (self.vcols, self.vrows)):
+                if c in cs and any(isinstance(r[cs.index(c)], frozenset) for r in rows):
+                    return True
+        return False
+
+    def fin_sorted_adjacent(self, n, l, p, count_rule):
+        import itertools
+        idx = [(self.rawkey(p, t), self.rawkey(l, t)) + t for t in self.evals]
+        n_levels = len(set(i[1] for i in idx))
+        try:
+            idx = sorted(idx)
+            groups = [list(g) for _, g in itertools.groupby(idx, key=lambda i: i[0])]
+        except Exception:  # noqa
+            merged = OrderedDict()
+            for k, g in itertools.groupby(idx, key=lambda i: i[0]):
+                merged.setdefault(k, []).extend(g)
+            groups = list(merged.values())
+        kept = set()
+        for g in groups:
+            ok = len(g) == n_levels if count_rule else (len(g) <= n_levels and len(set(i[1] for i in g)) >= n_levels)
+            if ok:
+                kept |= set(i[2:5] for i in g)
+        evs = OrderedDict((t, rows) for t, rows in self.evals.items() if t in kept)
+        if n == "min":
+            if evs:
+                m = min(len(r) for r in evs.values())
+                evs = OrderedDict((t, rows[:m]) for t, rows in evs.items())
+        elif n:
+            evs = OrderedDict((t, rows[:n]) for t, rows in evs.items() if len(rows) >= n)
+        return evs
+
+    def raw_sorted_adjacent(self, evs, x, l, span):
+        """raw_learners' own label grouping on sorted rows: a label met again later overwrites its column"""
+        import itertools
+        out = self.raw(evs, x, l, span)
+        real = OrderedDict()
+        for t, rows in evs.items():
+            lk = self.key(l, t)
+            lr = self.rawkey(l, t)
+            if x == "index":
+                for r in rows:
+                    real.setdefault((lr, r[self.ii]), (lk, (r[self.ii],)))
+            else:
+                real.setdefault((lr, self.rawkey(x, t)), (lk, self.key(x, t)))
+        rows = list(real)
+        try:
+            rows = sorted(rows)
+        except Exception:  # noqa
+            return out
+        data = OrderedDict()
+        for lr, grp in itertools.groupby(rows, key=lambda r: r[0]):
+            data[lr] = [real[r] for r in grp]
+        res = OrderedDict()
+        for lr, keys in data.items():
+            for k in keys:
+                res[k] = out[k]
+        return res
 
     def raw(self, evs, x, l, span):
         """{(lkey,xkey): [values over evaluations in table order]}"""
@@ -250,15 +335,25 @@ class Direct:
 
 
 def multiset_sub(small, big):
-    big = list(big)
-    for r in small:
-        for i, b in enumerate(big):
-            if b == r and type(b) is type(r):
-                del big[i]
-                break
-        else:
-            return False
-    return True
+    """every row of `small` occurs (with multiplicity, same types) among the rows of `big`"""
+    from collections import Counter
+
+    def k(r):
+        return tuple((type(x).__name__, x) for x in r)
+    try:
+        cb = Counter(k(r) for r in big)
+        cs = Counter(k(r) for r in small)
+        return all(cb.get(key, 0) >= n for key, n in cs.items())
+    except TypeError:
+        big = list(big)
+        for r in small:
+            for i, b in enumerate(big):
+                if b == r and type(b) is type(r):
+                    del big[i]
+                    break
+            else:
+                return False
+        return True
 
 
 def check_tables(post, pre, fails, op, demand_all_referenced):
@@ -338,6 +433,29 @@ def same_number(impl, frac):
 
 
 # ----------------------------------------------------------------------------- model side
+_TOK = [0]
+
+
+def ask(driver, req):
+    """driver.ask with a token: if an earlier request of this worker was abandoned (case timeout) its late answer
+    is skipped instead of being taken for the answer to this request"""
+    _TOK[0] += 1
+    tok = _TOK[0]
+    ans = driver.ask(dict(req, tok=tok))
+    for _ in range(50):
+        if ans.get("tok") == tok:
+            return ans
+        line = driver.p.stdout.readline()
+        if not line:
+            raise RuntimeError("driver died")
+        msg = json.loads(line)
+        ans = msg.get("ok") or {}
+    raise RuntimeError("driver died")      # hopelessly out of step: let the engine restart it
+
+
+MAX_MODEL_ROWS = 600     # the executable model is quadratic in the table size; larger states are checked by (B) only
+
+
 class Coder:
     """numbers distinct python values (by ==/hash) 0,1,2,…"""
 
@@ -357,13 +475,13 @@ class Coder:
             return c
 
 
-def model_result(s, coder):
+def model_result(s, coder, ycol="reward"):
     def ptab(tb, idc):
         cols, rows = s[tb]
         k = cols.index(idc)
         return [[r[k], [coder.code(x) for j, x in enumerate(r) if j != k]] for r in rows]
     icols, irows = s["int"]
-    ix = [icols.index(c) for c in ("environment_id", "learner_id", "evaluator_id", "index", "reward")]
+    ix = [icols.index(c) for c in ("environment_id", "learner_id", "evaluator_id", "index", ycol)]
     return {"envs": ptab("env", "environment_id"), "lrns": ptab("lrn", "learner_id"), "evals": ptab("val", "evaluator_id"),
             "ints": [[r[i] for i in ix] for r in irows]}
 
@@ -384,14 +502,14 @@ def col_refs(s, names):
     return [col_ref(s, c) for c in aslist(names)]
 
 
-def int_ok(s):
+def int_ok(s, ycol="reward"):
     """the model represents ids/index/reward as integers"""
     icols, irows = s["int"]
     ix = [icols.index(c) for c in ("environment_id", "learner_id", "evaluator_id", "index")]
     for r in irows:
         if not all(isinstance(r[i], int) and not isinstance(r[i], bool) and r[i] >= 0 for i in ix):
             return False
-        y = r[icols.index("reward")]
+        y = r[icols.index(ycol)]
         if not isinstance(y, int) or isinstance(y, bool):
             return False
     return True
@@ -425,7 +543,11 @@ class C18(Property):
         "ids are unique within a parameter table; l and p are both given or both None, and name id or parameter columns",
         "where_fin(n=k) is read as DESIGN §C18 does: pairing first, then evaluations shorter than k are dropped (which may leave a group incomplete)",
     ]
-    partial_theorems = {}
+    partial_theorems = {
+        "group_p_spec_partial": "the unchanged _group_p (len(group) == n_levels) meets the spec only if no level occurs twice inside a "
+                                "p-group; witness group_p_duplicate_counterexample (= finding C18-F1). All other theorems are about the "
+                                "code with fixes/C18-group-p-duplicate-level.diff applied (model parameter fixed=true) and are at full strength",
+    }
 
     # ---------------------------------------------------------------- generation
     def gen_value(self, rng, kind):
@@ -434,25 +556,32 @@ class C18(Property):
         if kind == "int":
             return rng.choice([0, 1, 1, 2])
         if kind == "mixed":
-            return rng.choice(["a", 1, None, {"t": [1, "a"]}, {"f": "0.5"}, "a", 1, True, 0])
+            return rng.choice(["a", 1, None, {"t": [1, "a"]}, {"f": "0.5"}, "a", 1, True, 0, "", False, {"f": "0.0"}])
+        if kind == "fset":          # hashable but only partially ordered
+            return rng.choice([{"fs": [1]}, {"fs": [2]}, {"fs": [1]}, {"fs": [1, 2]}, {"fs": []}])
         if kind == "const":
             return "k"
         return None
 
     def gen_result(self, rng):
-        ne, nl, nv = rng.choice([1, 2, 2, 3, 3, 4]), rng.choice([1, 2, 2, 3]), rng.choice([1, 1, 2])
-        ids = lambda n: (list(range(n)) if rng.chance(0.7) else sorted(rng.sample(list(range(0, 12)), n)))  # noqa
+        big = rng.chance(0.08)          # now and then a larger Result: many environments, long evaluations, two-digit ids
+        ne = rng.choice([1, 2, 2, 3, 3, 4]) if not big else rng.randint(5, 9)
+        nl = rng.choice([1, 2, 2, 3]) if not big else rng.randint(2, 4)
+        nv = rng.choice([1, 1, 2]) if not big else rng.choice([1, 2, 3])
+        ids = lambda n: (list(range(n)) if rng.chance(0.7) else sorted(rng.sample(list(range(0, 12 if not big else 40)), n)))  # noqa
         eids, lids, vids = ids(ne), ids(nl), ids(nv)
         env_cols = rng.choice([["data"], ["data", "seed"], ["data", "seed"], []])
         lrn_cols = rng.choice([["family"], ["family", "lr"], ["family", "lr"], []])
         val_cols = rng.choice([["ev"], [], ["ev"]])
         kinds = {"data": rng.choice(["str", "int", "mixed", "str", "const"]), "seed": rng.choice(["int", "int", "mixed"]),
                  "family": rng.choice(["str", "str", "const", "mixed"]), "lr": rng.choice(["int", "mixed"]), "ev": rng.choice(["str", "int"])}
+        if rng.chance(0.05):
+            kinds[rng.choice(["data", "data", "family"])] = "fset"
         envs = [[i] + [self.gen_value(rng, kinds[c]) for c in env_cols] for i in eids]
         lrns = [[i] + [self.gen_value(rng, kinds[c]) for c in lrn_cols] for i in lids]
         vals = [[i] + [self.gen_value(rng, kinds[c]) for c in val_cols] for i in vids]
         present = rng.choice([1.0, 1.0, 0.92, 0.85, 0.7, 0.5])
-        base = rng.choice([1, 2, 3, 3, 4, 5])
+        base = rng.choice([1, 2, 3, 3, 4, 5]) if not big else rng.choice([2, 3, 6, 12, 25])
         ragged = rng.choice([0.0, 0.3, 0.6])
         evals = []
         for e in eids:
@@ -466,8 +595,12 @@ class C18(Property):
         if not evals and rng.chance(0.9):
             evals.append([eids[0], lids[0], vids[0], [rng.randint(-3, 9) for _ in range(base)]])
         evals = rng.shuffle(evals) if rng.chance(0.5) else evals
-        return {"kind": "res", "env_cols": env_cols, "lrn_cols": lrn_cols, "val_cols": val_cols,
+        case = {"kind": "res", "env_cols": env_cols, "lrn_cols": lrn_cols, "val_cols": val_cols,
                 "envs": rng.shuffle(envs), "lrns": rng.shuffle(lrns), "vals": vals, "evals": evals, "extra": rng.chance(0.3)}
+        rk = rng.choice([None, None, None, None, "bin", "bool", "dyadic"])
+        if rk:
+            case["rk"] = rk
+        return case
 
     def gen_lp(self, rng, case, for_raw=False):
         ec, lc, vc = case["env_cols"], case["lrn_cols"], case["val_cols"]
@@ -477,12 +610,14 @@ class C18(Property):
         ps += [c for c in ec] + [c for c in ec] + ([list(ec)] if ec else []) + ([[ec[0], "evaluator_id"]] if ec else []) + [c for c in vc]
         if for_raw:
             ls += ["full_name", "full_name"]
+        else:
+            ls += ["full_name"]
         r = rng.below(100)
         if r < 6:
             return rng.choice(ps), rng.choice(ls)        # swapped roles
         if r < 50:                                       # pairings that can be complete
             nv = len(set(e[2] for e in case["evals"]))
-            l = rng.choice(["learner_id", "learner_id", ["learner_id"]] + (["full_name"] if for_raw else []))
+            l = rng.choice(["learner_id", "learner_id", ["learner_id"], "full_name"])
             p = rng.choice(["environment_id", ["environment_id"]]) if (nv <= 1 or rng.chance(0.2)) else ["environment_id", "evaluator_id"]
             if nv > 1 and rng.chance(0.3):
                 l, p = ["learner_id", "evaluator_id"], "environment_id"
@@ -504,6 +639,8 @@ class C18(Property):
                 st["l"], st["p"] = None, None
             if rng.chance(0.2):
                 st["use_filter_fin"] = True
+            if rng.chance(0.15) and (isinstance(st["l"], list) or isinstance(st["p"], list)):
+                st["as_tuple"] = True
             return st
         if r < 80:
             tb = rng.choice(["env", "lrn", "val"])
@@ -532,15 +669,21 @@ class C18(Property):
         l, p = self.gen_lp(rng, case, for_raw=True)
         ec = case["env_cols"]
         xs = ["index", "index", "index", "environment_id", "learner_id"] + list(ec) + ([list(ec)] if ec else []) + list(case["lrn_cols"]) + list(case["val_cols"])
-        return {"op": "raw_learners", "x": rng.choice(xs), "l": l, "p": (None if rng.chance(0.25) else p),
-                "span": rng.choice([None, None, 0, 1, 2, 2, 3, 4, 6])}
+        lens = sorted(len(e[3]) for e in case["evals"]) or [3]
+        st = {"op": "raw_learners", "x": rng.choice(xs), "l": l, "p": (None if rng.chance(0.25) else p),
+              "span": rng.choice([None, None, 0, 1, 2, 2, 3, 4, 6, lens[0], lens[-1], max(1, lens[0] - 1), lens[-1] + 1])}
+        if case.get("extra") and not case.get("rk") and rng.chance(0.3):
+            st["y"] = "z"
+        if rng.chance(0.15) and any(isinstance(st[k], list) for k in ("l", "p", "x")):
+            st["as_tuple"] = True
+        return st
 
     def gen_ma(self, rng, boundary=False):
-        n = rng.choice([0, 1, 2, 3, 4, 5, 6, 8, 12])
+        n = rng.choice([0, 1, 2, 3, 4, 5, 6, 8, 12, 12, 25, 60])
         dy = rng.chance(0.3)
         vs = [q(Fraction(rng.randint(-8, 12), rng.choice([1, 2, 4]) if dy else 1)) for _ in range(n)]
         r = rng.below(100)
-        span = rng.choice([None, 0, 1, 2, 3, max(0, n - 1), n, n + 1, 4, 7])
+        span = rng.choice([None, 0, 1, 2, 3, max(0, n - 1), n, n + 1, 4, 7, max(1, n // 2), 10])
         if r < 45:
             w = None
         elif r < 65:
@@ -558,7 +701,7 @@ class C18(Property):
             return self.gen_ma(rng)
         case = self.gen_result(rng)
         steps = []
-        k = rng.choice([1, 1, 2, 2, 3])
+        k = rng.choice([1, 1, 2, 2, 3, 4])
         for _ in range(k):
             steps.append(self.gen_step(rng, case))
         if rng.chance(0.55):
@@ -650,6 +793,7 @@ class C18(Property):
         coder = Coder()
         for st, rec in zip(case["steps"], recs):
             op = st["op"]
+            nfails0 = len(fails)
             tags.append("op:" + op)
             pre = rec["pre"]
             if "err" in rec:
@@ -672,7 +816,11 @@ class C18(Property):
             impl_out.append({"post": snap_json(rec["post"])} if "post" in rec else ({"table": json.loads(json.dumps(rec.get("table"), default=str))} if "table" in rec else {"err": rec["err"]}))
             # (A)
             undefined = op == "raw_learners" and st["x"] == "index" and st.get("span") == 0
-            if driver is not None and op in ("where_fin", "where", "raw_learners") and int_ok(pre) and not undefined:
+            f2_here = any(f["sig"] == F2_SIG for f in fails[nfails0:])   # the model groups by equality; (B) reports this step
+            small = len(pre["int"][1]) <= MAX_MODEL_ROWS
+            if not small:
+                tags.append("A:skipped-large-state")
+            if driver is not None and op in ("where_fin", "where", "raw_learners") and int_ok(pre, st.get("y", "reward")) and not undefined and not f2_here and small:
                 model_out.append(self.correspond(st, rec, driver, coder, fails, tags))
             else:
                 model_out.append(None)
@@ -697,7 +845,13 @@ class C18(Property):
         ie, il, iv = (post["int"][0].index(c) for c in ("environment_id", "learner_id", "evaluator_id"))
         if got != exp:
             legacy = d.fin(n, l, p, legacy=True)
-            if (l or p) and got == legacy:
+            sim = [d.fin_sorted_adjacent(n, l, p, rule) for rule in (True, False)] if ((l or p) and d.col_has_partial_order(p)) else []
+            if (l or p) and got != legacy and any(got == e for e in sim):
+                tags.append("f2")
+                fails.append(F("B", "where_fin(n=%r,l=%r,p=%r) splits a %s-group because its key values are only partially ordered "
+                               "(frozensets): sorted() does not raise and equal keys are not adjacent; kept %s, expected %s"
+                               % (n, l, p, p, list(got), list(exp)), F2_SIG))
+            elif (l or p) and got == legacy:
                 tags.append("p15")
                 kept, levels, groups = d.kept_by_pairing(l, p, legacy=True)
                 bad = [(k, g) for k, g in groups if len(g) == len(levels) and set(g) <= kept and not all(sum(1 for t in g if d.key(l, t) == lv) == 1 for lv in levels)]
@@ -736,18 +890,21 @@ class C18(Property):
         tags.append("raw:x=%s" % ("index" if x == "index" else "params"))
         tags.append("raw:span=%s" % span)
         tags.append("raw:p=%s" % ("none" if p is None else "given"))
-        d = Direct(pre)
+        d = Direct(pre, st.get("y", "reward"))
 
-        def expected(legacy):
+        def expected(legacy, sim=None):
             if not d.irows:
                 return None
             if p:
-                evs = d.fin("min" if x == "index" else None, l, p, legacy)
+                if sim is None:
+                    evs = d.fin("min" if x == "index" else None, l, p, legacy)
+                else:
+                    evs = d.fin_sorted_adjacent("min" if x == "index" else None, l, p, sim)
                 if not evs:
                     return None
             else:
                 evs = d.evals
-            return d.raw(evs, x, l, span)
+            return d.raw(evs, x, l, span) if sim is None else d.raw_sorted_adjacent(evs, x, l, span)
         if x == "index" and span == 0 and any(len(r) > 0 for r in d.evals.values()):
             tags.append("raw:undefined-span0")       # the mean of the last 0 values is not defined: only (A) applies
             return False
@@ -764,9 +921,14 @@ class C18(Property):
                 return False
             return all(len(got[k]) == len(e[k]) and all(same_number(a, b) for a, b in zip(got[k], e[k])) for k in e)
         if not matches(exp):
+            partial = d.col_has_partial_order(p) or d.col_has_partial_order(l)
             if p and matches(expected(True)):
                 tags.append("p15")
                 fails.append(F("B", "%s reports averages over a %s-group with a duplicate %s level and a missing one" % (call, p, l), P15_SIG))
+            elif partial and any(matches(expected(False, sim=rule)) for rule in (True, False)):
+                tags.append("f2")
+                fails.append(F("B", "%s groups by sorted()+adjacency although the %s values are only partially ordered (frozensets): "
+                               "a group is split / a label column is overwritten; a direct computation gives %s" % (call, "p" if d.col_has_partial_order(p) else "l", fmt(exp)), F2_SIG))
             elif "err" in rec:
                 fails.append(F("B", "%s raised %s (%s) although there is data to report: expected %s" % (call, rec["err"], rec.get("errmsg"), fmt(exp)), "raw:raises-" + rec["err"]))
             elif exp is None:
@@ -787,11 +949,11 @@ class C18(Property):
     def correspond(self, st, rec, driver, coder, fails, tags):
         pre = rec["pre"]
         op = st["op"]
-        res = model_result(pre, coder)
+        res = model_result(pre, coder, st.get("y", "reward"))
         if op == "where_fin":
             l, p = st.get("l"), st.get("p")
             lp = None if not (l or p) else {"l": col_refs(pre, l), "p": col_refs(pre, p)}
-            ans = driver.ask({"kind": "fin", "res": res, "n": st.get("n"), "lp": lp})
+            ans = ask(driver, {"kind": "fin", "res": res, "n": st.get("n"), "lp": lp})
             impl = {"err": rec["err"]} if "err" in rec else {"ok": model_result(rec["post"], coder)}
             self.cmp_models("where_fin(n=%r,l=%r,p=%r)" % (st.get("n"), l, p), impl, ans, fails, "A:where_fin")
             if ans["hyp"] and (lp is not None or ans["allref"]) and canonj(ans["model"]) != canonj(ans["spec"]):
@@ -809,19 +971,19 @@ class C18(Property):
             codes = [(v if j is None else coder.code(v)) for v in vals]
             if j is None and not all(isinstance(v, int) for v in vals):
                 return None
-            ans = driver.ask({"kind": "where", "res": res, "tbl": tb, "j": j, "vals": codes})
+            ans = ask(driver, {"kind": "where", "res": res, "tbl": tb, "j": j, "vals": codes})
             impl = {"err": rec["err"]} if "err" in rec else {"ok": model_result(rec["post"], coder)}
             if canonj(impl) != canonj(ans["model"]):
                 fails.append(F("A", "where(%s=%r): implementation %s, model %s" % (col, arg, canonj(impl)[:400], canonj(ans["model"])[:400]), "A:where"))
             return ans["model"]
         if op == "raw_learners":
             x, l, p = st["x"], st["l"], st.get("p")
-            ans = driver.ask({"kind": "raw", "res": res, "x": ("index" if x == "index" else col_refs(pre, x)), "l": col_refs(pre, l),
+            ans = ask(driver, {"kind": "raw", "res": res, "x": ("index" if x == "index" else col_refs(pre, x)), "l": col_refs(pre, l),
                               "p": (None if p is None else col_refs(pre, p)), "span": st.get("span")})
             if "err" in rec:
                 impl = {"err": rec["err"]}
             else:
-                d = Direct(pre)
+                d = Direct(pre, st.get("y", "reward"))
                 got = table_to_dict(rec, st, d)
 
                 def ck(cols, key):
@@ -900,7 +1062,7 @@ class C18(Property):
         model = None
         if driver is not None and defined:      # where the textbook value is undefined (a window of total weight 0,
             # violated assert, span<1 for 'exp') the statement demands nothing, so nothing is compared
-            ans = driver.ask({"kind": "ma", "vs": case["vs"], "span": span, "w": w})
+            ans = ask(driver, {"kind": "ma", "vs": case["vs"], "span": span, "w": w})
             model = ans["model"]
             if "err" in out or "err" in model:
                 if out.get("err") != model.get("err"):
@@ -975,9 +1137,13 @@ class C18(Property):
                  "from coba.results.core import Result", "from coba.context import CobaContext, NullLogger", "CobaContext.logger = NullLogger()",
                  "ints = [['environment_id','learner_id','evaluator_id','index','reward'%s]]" % (",'z'" if case.get("extra") else ""),
                  "for e,l,v,ys in %r:" % (case["evals"],),
-                 "    for i,y in enumerate(ys,1): ints.append([e,l,v,i,y]%s)" % ("+[100*e+10*l+v+1000*i]" if case.get("extra") else ""),
-                 "r = Result(%r, %r, %r, ints)" % (envs, lrns, vals)]
+                 "    for i,y in enumerate(ys,1): ints.append([e,l,v,i,%s]%s)" % ({"bin": "y%2", "bool": "bool(y%2)", "dyadic": "y/4"}.get(case.get("rk"), "y"), "+[100*e+10*l+v+1000*i]" if case.get("extra") else ""),
+                 "base = r = Result(%r, %r, %r, ints)" % (envs, lrns, vals)]
         for st in case["steps"]:
+            if st.get("as_tuple"):
+                st = dict(st, **{k: tuple(st[k]) for k in ("l", "p", "x") if isinstance(st.get(k), list)})
+            if st.get("fresh"):
+                lines.append("r = base")
             if st["op"] == "where_fin":
                 lines.append("r = r.where_fin(%r, %r, %r)" % (st.get("n"), st.get("l"), st.get("p")))
             elif st["op"] == "where":
@@ -986,7 +1152,7 @@ class C18(Property):
             elif st["op"] == "where_best":
                 lines.append("r = r.where_best(l=%r, p=%r, n=%r)" % (st["l"], st["p"], st.get("n")))
             else:
-                lines.append("t = r.raw_learners(x=%r, y='reward', l=%r, p=%r, span=%r); print(t.columns, list(t))" % (st["x"], st["l"], st.get("p"), st.get("span")))
+                lines.append("t = r.raw_learners(x=%r, y=%r, l=%r, p=%r, span=%r); print(t.columns, list(t))" % (st["x"], st.get("y", "reward"), st["l"], st.get("p"), st.get("span")))
             lines.append("print([list(t) for t in (r.environments, r.learners, r.evaluators, r.interactions)])")
         return "\n".join(lines) + "\n"
 
